@@ -9,13 +9,19 @@ DEFLATE, CRC-32, ISIZE) is a PARAMETER of the model: each gzip operation carries
 encoder pushes into the chunk writer during that call (`gzWrite pushed _`, `gzFlush pushed`,
 `gzDrop pushed`). That the concatenation of those bytes is one well-formed gzip member whose
 decompression equals the input — and that the output up to a sync flush decodes to the input up
-to that flush — is ASSUMED (hypothesis `GzipContract` below) and TESTED on every run with
-Python's zlib (not the Rust inflater). Known finding K2 is a violation of exactly that assumed
-flush clause by flate2 when more than 32 KiB of output is pending.
+to that flush — is ASSUMED (hypothesis `GzipContract` below) and CHECKED on every run, per case,
+by the decoder of `Model/Inflate.lean` (`Inflate.gunzip`, `Inflate.gunzipAvail`: RFC 1951 / 1952
+as total Lean functions, run by the model driver on the real encoder's bytes) and, independently,
+by Python's zlib (neither is the Rust inflater). What is proved about that decoder is below
+(`C09_decoder_*`): it accepts and returns the content of every stored-block member of every
+length, whatever it accepts has the gzip framing with the CRC-32 and the length of its OUTPUT, its
+streaming view agrees with its one-shot view and never takes output back. Known finding K2 is a
+violation of exactly the assumed flush clause by flate2 when more than 32 KiB of output is pending.
 
-Proofs in `Lemmas/PipeFaults.lean`.
+Proofs in `Lemmas/PipeFaults.lean`, `Lemmas/Inflate.lean`.
 -/
 import HttpServeModel.Lemmas.PipeFaults
+import HttpServeModel.Lemmas.Inflate
 
 namespace HS
 
@@ -66,6 +72,72 @@ theorem C09_flush_decodable (sdecode : Bytes → Bytes) (inputSoFar : Bytes)
   intro h hbw hc'
   have := gz_flush_publishes cap hc ops hops pushed hbw
   rw [this]; exact hc'
+
+/-! ### The decoder the assumption is checked with -/
+
+/-- The decoder accepts every gzip member whose DEFLATE stream consists of stored blocks, of
+every content and every length, and returns exactly the content. -/
+theorem C09_decoder_accepts_stored_members (bs : Bytes) (h : Inflate.IsBytes bs) :
+    Inflate.gunzip (Inflate.gzipStored bs) = some bs :=
+  Inflate.gunzip_gzipStored bs h
+
+/-- Whatever the decoder accepts has the gzip framing: magic and method, and its last eight
+bytes are the CRC-32 and the length (mod 2^32) of the decoder's OUTPUT, little endian. -/
+theorem C09_decoder_sound (input out : Bytes) (h : Inflate.gunzip input = some out) :
+    input.take 3 = [31, 139, 8] ∧ 18 ≤ input.length ∧
+    input.drop (input.length - 8) =
+      Inflate.le32 (Inflate.crc32 out) ++ Inflate.le32 (out.length % 4294967296) :=
+  Inflate.gunzip_sound input out h
+
+/-- The streaming view agrees with the one-shot view on a complete member. -/
+theorem C09_decoder_views_agree (input out : Bytes) (h : Inflate.gunzip input = some out) :
+    Inflate.gunzipAvail input = (true, out) :=
+  Inflate.gunzipAvail_of_gunzip input out h
+
+/-- The streaming decoder never takes output back: more input only extends what it has produced
+(as long as no defect is reported). -/
+theorem C09_decoder_never_takes_output_back (a b : Bytes)
+    (h : (Inflate.gunzipAvail (a ++ b)).1 = true) :
+    (Inflate.gunzipAvail a).1 = true ∧
+    (Inflate.gunzipAvail a).2 <+: (Inflate.gunzipAvail (a ++ b)).2 :=
+  Inflate.gunzipAvail_mono a b h
+
+/-- C09's first clause with the concrete decoder: if what the encoder pushed is one member of the
+input (checked per case on the real encoder's bytes), then what the consumer holds at the clean
+end is that member: it decodes to the input, begins with the gzip magic and method, and ends
+with the CRC-32 and the length of the input. -/
+theorem C09_member_gunzip (input : Bytes)
+    (cap : Nat) (hc : 0 < cap) (ops : List AnyOp) (hops : ∀ op ∈ ops, op.gzPlain) :
+    let h := (Hist.init cap .gz).run ops
+    Inflate.gunzip h.accepted = some input → ROut.end_ ∈ h.polls →
+    Inflate.gunzip h.delivered = some input ∧ h.delivered.take 3 = [31, 139, 8] ∧
+    h.delivered.drop (h.delivered.length - 8) =
+      Inflate.le32 (Inflate.crc32 input) ++ Inflate.le32 (input.length % 4294967296) := by
+  intro h hdec hend
+  have hd := C09_member Inflate.gunzip input cap hc ops hops hdec hend
+  have hs := Inflate.gunzip_sound _ _ hd
+  exact ⟨hd, hs.1, hs.2.2⟩
+
+/-- C09's second clause with the concrete streaming decoder: if the encoder's output up to and
+including a sync flush decodes to the input written so far (checked per case), then so do the
+frames available to the consumer when `flush` returns; and every shorter prefix of them decodes
+to a prefix of that (nothing is produced that later has to be taken back). -/
+theorem C09_flush_decodable_gunzip (inputSoFar : Bytes)
+    (cap : Nat) (hc : 0 < cap) (ops : List AnyOp) (hops : ∀ op ∈ ops, op.gzPlain) (pushed : Bytes) :
+    let h := (Hist.init cap .gz).run (ops ++ [.p (.gzFlush pushed)])
+    h.sys.bw = .gz → Inflate.gunzipAvail h.accepted = (true, inputSoFar) →
+    Inflate.gunzipAvail (h.delivered ++ h.sys.inflight) = (true, inputSoFar) ∧
+    ∀ a b, a ++ b = h.delivered ++ h.sys.inflight →
+      (Inflate.gunzipAvail a).1 = true ∧ (Inflate.gunzipAvail a).2 <+: inputSoFar := by
+  intro h hbw hdec
+  have hpub := gz_flush_publishes cap hc ops hops pushed hbw
+  have hall : Inflate.gunzipAvail (h.delivered ++ h.sys.inflight) = (true, inputSoFar) := by
+    rw [hpub]; exact hdec
+  refine ⟨hall, ?_⟩
+  intro a b hab
+  have hm := Inflate.gunzipAvail_mono a b (by rw [hab, hall])
+  rw [hab, hall] at hm
+  exact hm
 
 /-- Non-vacuity: chunk size 1 (every byte of the encoder's output in its own frame). -/
 example :
